@@ -48,9 +48,9 @@ CHECKS = {
   "design_ref": "DESIGN.md section 6 / C14",
  },
  "C15": {
-  "text": "Executable Lean model of the frame log / ack-group validation / reorder buffer / loss intervals; twin-run correspondence: a baseline scenario and a copy differing only by injected acknowledgements (replays of delivered ack frames, wrong-nonce groups over logged frames, groups naming unknown/forgotten/future ids, frame ids straddling the u32 wrap) must give identical sender outputs on the implementation, and model = implementation on both. Found and repaired F8. No-op theorems in progress (C15_empty_group_noop proved).",
-  "note": "Partial: bad-nonce / unknown-frame / replay no-op theorems in progress.",
-  "technique": "Lean 4 model + twin-run differential correspondence; no-op theorems (in progress)",
+  "text": "Lean theorems on the executable frame-queue model (frame log, ack-group validation, reorder buffer): C15_unknown_frame_noop (a group naming any id outside the log changes nothing), C15_bad_nonce_noop (all ids logged but nonce != XOR of the logged nonces of the claimed frames: nothing changes), C15_accept_sound / C15_acked_fragments_sound (state changes or fragments are acknowledged only for logged, previously unacknowledged, claimed frames under the right nonce), C15_replay_noop + C15_idempotent (a replayed group is a no-op: no second RTT sample, loss event or rate feedback), C15_log_preserved, C15_accept_marks_acked, C15_window_stale_noop (stale / out-of-range window bases ignored), C15_empty_group_noop; C15_no_trap_partial under the explicit invariant AckInv (shown for init/push/acknowledgeGroup). Twin-run correspondence: a baseline scenario and a copy differing only by injected acknowledgements (replays, wrong nonce, unknown/forgotten/future ids, ids straddling the u32 wrap) must give identical sender outputs on the implementation and model = implementation on both. Found and repaired F8.",
+  "note": "Trusted: Lean kernel (propext, Classical.choice, Quot.sound), extract_consts.py, harness/driver. C15_no_trap_partial: preservation of AckInv by window advancement / forgetting not proved.",
+  "technique": "Lean 4 proofs on the frame-queue model (no-op / soundness / idempotence theorems with non-vacuity examples) + twin-run differential correspondence",
   "design_ref": "DESIGN.md section 6 / C15",
  },
  "C07": {
@@ -88,6 +88,30 @@ CHECKS = {
   "note": 'Trusted: Lean kernel (propext, Quot.sound), extract_consts.py, relay harness.',
   "technique": 'Lean 4 proof by invariant over server runs with ghost byte counters + differential correspondence over real sockets + oracle',
   "design_ref": "DESIGN.md section 6 / C18",
+ },
+ "C01": {
+  "text": "Executable Lean models of packet sender (ids, parent leads), codec, data-frame emitter and packet receiver (receive window, per-channel base/parent logic, assembly), run as two half connections against two real HalfConnections over a simulated datagram network: every emitted frame (byte-exact) and every delivery (channel, fnv digest) is compared, and the implementation-side oracle demands that on each channel the delivered payloads are a duplicate-free, byte-exact subsequence of the submitted ones — under drop / duplication / unbounded delay / reordering / 1-4 bit flips in both directions, initial ids at 0, random and within one window of the 2^20 / 2^32 wrap, windows 4..4096 cycled many times, and long runs behind an unacknowledged Reliable packet (parent leads crossing the 1-byte/2-byte header thresholds). The end-to-end order theorem over the datagram network (DESIGN 6/C01) is not proved yet; proved parts: fragment reassembly exactly-once and byte-exact (C04 theorems), codec round trip (C16).",
+  "note": "Partial: the System-D theorem (in-order, at-most-once delivery for every network behaviour) is work in progress; the claim rests on exact correspondence plus the oracle over the generated fault schedules. Trusted: harness/driver, simulated network in tools/gen_hc.py.",
+  "technique": "Lean 4 executable model + differential correspondence of two-endpoint runs + per-channel subsequence oracle; component theorems (C04, C16); end-to-end theorem in progress",
+  "design_ref": "DESIGN.md section 6 / C01",
+ },
+ "C02": {
+  "text": "Same two-endpoint model/correspondence; scenarios consist of an arbitrary finite fault prefix (loss, duplication, reordering of data, ack and sync frames in both directions, pauses) followed by a fair loss-free suffix until quiescence, for all modes, window sizes 4..4096 and initial ids. Oracle on the implementation: no packet is delivered on a channel while an earlier Reliable packet of that channel is undelivered; at quiescence every Reliable packet was delivered exactly once, is_send_pending() is false and send_buffer_size() is 0; quiescence is reached within the budget. Found (with C06) and repaired F2.",
+  "note": "Partial: liveness (eventual delivery) is established only on the generated schedules, not as a theorem under a fairness hypothesis; the safety half (no overtaking of a Reliable predecessor) awaits the receiver theorems. Trusted: harness/driver, simulated network.",
+  "technique": "Lean 4 executable model + differential correspondence + ordering/quiescence oracle on fault-prefix / fair-suffix schedules",
+  "design_ref": "DESIGN.md section 6 / C02",
+ },
+ "C05": {
+  "text": "Same two-endpoint model/correspondence on a loss-free FIFO network (latency 0..150 ms): send histories over all modes/channels/sizes incl. multi-fragment, bursts exceeding the credit and both windows, small allocation limits, cadences 0.25 ms..100 ms, both directions; oracle: the delivered sequence (across channels) equals the submitted sequence with only TimeSensitive packets possibly missing (order-preserving embedding computed by dynamic programming, so equal payloads cannot cause a false alarm).",
+  "note": "Partial: the refinement theorem to a FIFO queue is not proved yet; proved parts: C04/C16/C20. Trusted: harness/driver, simulated network.",
+  "technique": "Lean 4 executable model + differential correspondence + FIFO-equality oracle on loss-free schedules",
+  "design_ref": "DESIGN.md section 6 / C05",
+ },
+ "C12": {
+  "text": "Executable Lean models of the send queue (TimeSensitive drop by flush id, resend flag per mode), the pending / resend queues (std BinaryHeap order reproduced) and the emitters; every datagram of every emitted data frame is compared with the code (hc correspondence) under low credit ceilings cutting packets across flushes, acks arriving between the fragments of one packet, loss and duplication. Wire-level oracle on the implementation: each Unreliable/TimeSensitive fragment at most once; a TimeSensitive packet not begun in the flush following its submission never appears (found and repaired F18); fragment 0 first; only TimeSensitive packets are ever skipped; no fragment after its acknowledgement was certainly accepted, nor after the sender's window base passed its packet. Theorems: C12_dropStale_head; the wire-log theorems (C12_once, C12_ts_drop, C12_no_resend_after_ack) are in progress.",
+  "note": "Partial: wire-log theorems in progress; 'retransmitted until acknowledged' is a liveness clause checked only on generated schedules (C02 oracle). Trusted: harness/driver, fragment identification by fnv of pseudo-random payloads.",
+  "technique": "Lean 4 executable model + differential correspondence per emitted datagram + wire-level oracle; theorems in progress",
+  "design_ref": "DESIGN.md section 6 / C12",
  },
 }
 
